@@ -287,6 +287,27 @@ def run(ctx):
 
     # ---------------- R3 merge order
     ctx.rule("C19.R3", "stdin inputs are parsed before the --input flags; flags are merged in order with unconditional insert (later wins); one shared counter names non-object values value_N", floor=5)
+    # object or not is a property of the JSON document: decided on serde_json's value, before any conversion (a converted value no
+    # longer tells an object from the reserved function-object form)
+    hpj_ = cli.hir_fn("blots::parse_json_inputs")
+    member_loops = []
+    for lp_ in H.walk(hpj_["body"]):
+        if H.kind(lp_) in ("For",) and any(H.kind(x) == "MethodCall" and x["name"] == "insert" for x in H.walk(lp_["body"])):
+            member_loops.append(lp_)
+    sel = []
+    for n_, e_, g_ in __import__('lib.scope', fromlist=['sites']).sites(hpj_["body"], lambda z: any(z is lp_ for lp_ in member_loops)):
+        for gg in g_:
+            pat = gg[1]["pat"] if gg[0] == "arm" else (next((c_["pat"] for c_ in H.walk(gg[1]) if H.kind(c_) == "LetExpr"), None) if gg[0] == "if" and gg[2] is True else None)
+            if pat is not None:
+                sel += [v_ for v_ in H.pat_variants(pat) if "Object" in v_ or "Record" in v_]
+    v_sel = None if not sel else all("serde_json" in v_ for v_ in sel)
+    ctx.inst("C19.R3", "parse_json_inputs#object-test-on-json", v_sel, "the member loop runs under the pattern(s) %s (must be serde_json's Object, tested before conversion)" % (sorted(set(sel)) or "none found"), H.loc(hpj_["body"]))
+    # script or file: decided by whether the path exists, not by which error reading it gives (a long inline script is not a
+    # readable path either: ENAMETOOLONG)
+    hm_ = cli.hir_fn("blots::main")
+    by_kind = [H.loc(a_["guard"]) for m_ in H.walk(hm_["body"]) if H.kind(m_) == "Match" and any(H.kind(x) in ("Call", "MethodCall") and H.last(x.get("def") or "") in ("read_to_string", "read") for x in H.walk(m_["scrut"]))
+               for a_ in m_["arms"] if a_.get("guard") is not None and any(H.kind(x) == "MethodCall" and x["name"] == "kind" for x in H.walk(a_["guard"]))]
+    ctx.inst("C19.R3", "main#inline-or-file-by-existence", not by_kind, "places where the kind of a read error decides between inline source and file: %s" % (by_kind or "none"), H.loc(hm_["body"]))
     pj_calls = [n for n in H.walk(hm["body"]) if H.kind(n) == "Call" and n.get("def") == "blots::parse_json_inputs"]
     stdin_calls = [n for n in pj_calls if H.lit(n["args"][2]) is not None and H.lit(n["args"][2])["v"] == "stdin"]
     loops = [n for n in H.walk(hm["body"]) if H.kind(n) == "For" and any(H.kind(x) == "Call" and x.get("def") == "blots::parse_json_inputs" for x in H.walk(n["body"]))]
@@ -373,6 +394,10 @@ def run(ctx):
 
     # ---------------- R4 #name == inputs.name
     ctx.rule("C19.R4", "#name and inputs.name resolve through the same lookup: Environment::get(\"inputs\") then IndexMap::get(field).copied().unwrap_or(Null)", floor=3)
+    # ... also inside functions: every call frame carries `inputs`, so neither spelling is diverted by a parameter or local of that name
+    hfc_ = core.hir_fn("blots_core::functions::FunctionDef::call")
+    ins_ = [x for x in H.walk(hfc_["body"]) if H.kind(x) == "MethodCall" and x["name"] == "insert" and x.get("args") and "inputs" in H.str_lits(x["args"][0], core)]
+    ctx.inst("C19.R4", "FunctionDef::call#inputs-in-frame", bool(ins_), "the call frame re-binds `inputs` (%d insert(s) under the key \"inputs\"): without it `#x` is looked up through the caller's chain while a function defined elsewhere sees its own" % len(ins_), H.loc(hfc_["body"]))
     hev = core.hir_fn("blots_core::expressions::evaluate_ast")
     m = [x_ for x_ in [H.main_match(hev["body"], "ast::Expr")] if x_ is not None]
     arms = {}
